@@ -492,63 +492,63 @@ func runC10(c *Ctx) {
 				return false
 			}
 			checkAt := func(f *ssa.Function, setAt ssa.Instruction, key string) {
-			var parse *ssa.Call
-			parsesCER := false
-			for _, cj := range flow.CallInstrs(f) {
-				pc, ok := cj.(*ssa.Call)
-				if !ok {
-					continue
-				}
-				if flow.IsCallTo(pc, pkgSMParser, "CER", "Parse") {
-					parse, parsesCER = pc, true
-				} else if flow.IsCallTo(pc, pkgSMParser, "CEA", "Parse") {
-					parse = pc
-				}
-			}
-			if parse == nil {
-				r.Fail("R3", key, c.pos(call), "handshake metadata is created in a function that does not validate a CER/CEA with Parse")
-				return
-			}
-			if !flow.Dominates(parse, setAt) || errorEdgeBlocks(parse)[setAt.Block()] || !errEdgeTested(parse) {
-				r.Fail("R3", key, c.pos(setAt), "SetContext(NewContext(...)) is not confined to the nil-error edge of Parse: a rejected peer gets handshake metadata")
-				return
-			}
-			if p := pathFromErrEdge(f, parse, setAt); p != nil {
-				r.Fail("R3", key, c.pos(setAt), "SetContext(NewContext(...)) is reachable from the error edge of Parse", c.witness(p)...)
-				return
-			}
-			if parsesCER {
-				// success CEA writer
-				var writer *ssa.Call
+				var parse *ssa.Call
+				parsesCER := false
 				for _, cj := range flow.CallInstrs(f) {
-					wc, ok := cj.(*ssa.Call)
+					pc, ok := cj.(*ssa.Call)
 					if !ok {
 						continue
 					}
-					g := flow.StaticCallee(wc)
-					if g == nil || pkgOf(g) == nil || pkgOf(g).Path() != pkgSM {
-						continue
-					}
-					if c.answersWith(g, 2001) && c.writesMessage(g) {
-						writer = wc
+					if flow.IsCallTo(pc, pkgSMParser, "CER", "Parse") {
+						parse, parsesCER = pc, true
+					} else if flow.IsCallTo(pc, pkgSMParser, "CEA", "Parse") {
+						parse = pc
 					}
 				}
-				if writer == nil {
-					r.Fail("R3", key, c.pos(call), "server side: no call of a function that writes the success CEA (Answer(2001) + WriteTo) in the CER handler")
+				if parse == nil {
+					r.Fail("R3", key, c.pos(call), "handshake metadata is created in a function that does not validate a CER/CEA with Parse")
 					return
 				}
-				if !flow.Dominates(writer, setAt) || !errEdgeTested(writer) {
-					r.Fail("R3", key, c.pos(setAt), "metadata is stored before / regardless of the success CEA having been written")
+				if !flow.Dominates(parse, setAt) || errorEdgeBlocks(parse)[setAt.Block()] || !errEdgeTested(parse) {
+					r.Fail("R3", key, c.pos(setAt), "SetContext(NewContext(...)) is not confined to the nil-error edge of Parse: a rejected peer gets handshake metadata")
 					return
 				}
-				if p := pathFromErrEdge(f, writer, setAt); p != nil {
-					r.Fail("R3", key, c.pos(setAt), "metadata is stored although writing the success CEA failed", c.witness(p)...)
+				if p := pathFromErrEdge(f, parse, setAt); p != nil {
+					r.Fail("R3", key, c.pos(setAt), "SetContext(NewContext(...)) is reachable from the error edge of Parse", c.witness(p)...)
 					return
 				}
-				r.Ok("R3", key, c.pos(setAt), "stored with SetContext only after CER.Parse succeeded and the success CEA was written without error")
-			} else {
-				r.Ok("R3", key, c.pos(setAt), "stored with SetContext only on the nil-error edge of CEA.Parse")
-			}
+				if parsesCER {
+					// success CEA writer
+					var writer *ssa.Call
+					for _, cj := range flow.CallInstrs(f) {
+						wc, ok := cj.(*ssa.Call)
+						if !ok {
+							continue
+						}
+						g := flow.StaticCallee(wc)
+						if g == nil || pkgOf(g) == nil || pkgOf(g).Path() != pkgSM {
+							continue
+						}
+						if c.answersWith(g, 2001) && c.writesMessage(g) {
+							writer = wc
+						}
+					}
+					if writer == nil {
+						r.Fail("R3", key, c.pos(call), "server side: no call of a function that writes the success CEA (Answer(2001) + WriteTo) in the CER handler")
+						return
+					}
+					if !flow.Dominates(writer, setAt) || !errEdgeTested(writer) {
+						r.Fail("R3", key, c.pos(setAt), "metadata is stored before / regardless of the success CEA having been written")
+						return
+					}
+					if p := pathFromErrEdge(f, writer, setAt); p != nil {
+						r.Fail("R3", key, c.pos(setAt), "metadata is stored although writing the success CEA failed", c.witness(p)...)
+						return
+					}
+					r.Ok("R3", key, c.pos(setAt), "stored with SetContext only after CER.Parse succeeded and the success CEA was written without error")
+				} else {
+					r.Ok("R3", key, c.pos(setAt), "stored with SetContext only on the nil-error edge of CEA.Parse")
+				}
 			}
 			var lift func(g *ssa.Function, at ssa.Instruction, hop int)
 			lift = func(g *ssa.Function, at ssa.Instruction, hop int) {
